@@ -255,4 +255,64 @@ func rulesC09(e *Engine, r *Report) {
 			"payload.(*Decoder).Next: reader i is built from descriptor i on the shared stream; index advances by one", e.Pos(fn.Pos()),
 			"the part reader is not paired with the descriptor at the current index: meta="+strings.Join(m, "|")+" stream="+strings.Join(st, "|"), 3, append(m, st...)...)
 	}
+	// ---------------------------------------------------------------- R09.6
+	r.Rule("R09.6", "`part exists` is a coverage test, not an overlap sum: companionPartExists answers yes only on the path where the covered prefix has reached the end of the queried range, extends the prefix only with the End of a recorded range that starts at or before it and ends beyond the best found so far, and answers no as soon as a pass over the ranges extends nothing (summing overlaps counts bytes twice when recorded ranges overlap each other - F13)")
+	if fn := needFn(e, r, "R09.6", "stage.companionPartExists"); fn != nil {
+		sums := e.findInstrs(fn, "call(stage.«(minInt64|maxInt64)»)(§)", false)
+		r.Check(len(sums) == 0, "R09.6", "stage.companionPartExists: no overlap arithmetic", e.Pos(fn.Pos()), "the answer is computed from min/max overlaps again (unsound once recorded ranges overlap)", 1)
+		nT, nF := 0, 0
+		Instrs(fn, func(in ssa.Instruction) {
+			rt, ok := in.(*ssa.Return)
+			if !ok || len(rt.Results) != 1 || rt.Block().Comment == "recover" {
+				return
+			}
+			conds := e.domConds(rt.Block())
+			switch e.Canon(rt.Results[0]) {
+			case "true":
+				nT++
+				r.Check(hasStr(conds, "(p2 <= phi(p1|§))"), "R09.6", "stage.companionPartExists: yes only when the covered prefix reached the end of the range", e.InstrPos(rt),
+					"the range is reported as held on a path where coverage up to its end was not established", 1, conds...)
+			case "false":
+				nF++
+				r.Check(hasStr(conds, "(phi(§) == phi(p1|§))") || hasStr(conds, "(phi(p1|§) == phi(§))"), "R09.6", "stage.companionPartExists: no only when a pass extended nothing", e.InstrPos(rt),
+					"the range is reported as missing although the scan could still extend the covered prefix", 1, conds...)
+			default:
+				r.Bad("R09.6", "stage.companionPartExists: computed verdict", e.InstrPos(rt), "the verdict is a computed expression again: "+e.Canon(rt.Results[0]), 1)
+			}
+		})
+		r.Min("R09.6", "yes returns", nT, 1)
+		r.Min("R09.6", "no returns", nF, 1)
+		// the extension: the candidate End is adopted only under Beg <= covered and End > best
+		nExt := 0
+		for _, b := range fn.Blocks {
+			for _, in := range b.Instrs {
+				ph, ok := in.(*ssa.Phi)
+				if !ok {
+					continue
+				}
+				for i, ed := range ph.Edges {
+					cv := e.Canon(ed)
+					if !pat("p0.Parts[§].End").MatchString(cv) {
+						continue
+					}
+					if _, isPhi := ed.(*ssa.Phi); isPhi {
+						continue
+					}
+					pred := ph.Block().Preds[i]
+					conds := e.domConds(pred)
+					if t, ok2 := pred.Instrs[len(pred.Instrs)-1].(*ssa.If); ok2 {
+						conds = append(conds, e.CondStr(t.Cond, pred.Succs[0] == ph.Block()))
+					}
+					if !hasStr(conds, "(phi(§) < "+cv+")") {
+						continue // not the adoption edge of the inner scan
+					}
+					nExt++
+					beg := strings.TrimSuffix(cv, ".End") + ".Beg"
+					r.Check(hasStr(conds, "("+beg+" <= phi(p1|§))"), "R09.6", "stage.companionPartExists: a range extends the prefix only if it starts at or before it", e.Pos(fn.Pos()),
+						"a recorded range is used to extend the covered prefix although it starts beyond it (a gap would be jumped over)", 1, conds...)
+				}
+			}
+		}
+		r.Min("R09.6", "extension edges in the coverage scan", nExt, 1)
+	}
 }
